@@ -12,7 +12,7 @@ _SRC = ["harness/C04_t_%s_%s.cpp" % (g, t) for g in ["mix", "cmp", "conv", "bin"
 UNITS_LOCAL = {"C04": [
     Unit("vec", _SRC,
          cxx="clang++", flags=["-ffp-contract=off", "-g0"], opt="-O0", engine="gridmc",
-         budget={"quick": 100, "thorough": 1000},
+         budget={"quick": 150, "thorough": 1100},
          rule="for each of 10 element types x 4 shapes (vec2, vec3, padded vec3, vec4) and each overload family of vec.h "
               "(item = family x element type(s) x shape(s)): ALL |A|^K operand tuples, K = number of scalar operands "
               "(2N for vec-vec, N+1 for vec-scalar, 9 for madd; interpolate_uv: f in A^3 x three of the |A| cyclic rotations "
